@@ -429,6 +429,39 @@ Definition mserve_st (st : pstate) (i : nat) (hh up : bytes) (proto : N) : optio
 Definition mserve (groups : list group) (i : nat) (hh up : bytes) (proto : N) : option routed :=
   mserve_st (process groups) i hh up proto.
 
+(* ---- a process serving a SEQUENCE of requests ----
+   Server.serveHTTP reads the listener's trie and its fallback list and writes nothing a later
+   lookup reads: the state of the process after a request is the state before it. *)
+Record rq := { rq_srv : nat; rq_host : bytes; rq_path : bytes; rq_proto : N }.
+Definition serve_step (st : pstate) (q : rq) : pstate * option routed :=
+  (st, mserve_st st (rq_srv q) (rq_host q) (rq_path q) (rq_proto q)).
+Fixpoint serve_seq (st : pstate) (qs : list rq) : list (option routed) :=
+  match qs with
+  | [] => []
+  | q :: t => let '(st', r) := serve_step st q in r :: serve_seq st' t
+  end.
+
+(* NOT the code: a variant of serveHTTP that remembers the host names whose lookup found no site
+   and answers "no such site" for them from then on without consulting the trie (used only to
+   show what statelessness rules out, C01_unknown_host_cache_would_poison) *)
+Definition serve_step_cached (root : vtrie) (fallbacks : list bytes) (cache : list bytes)
+           (hh up : bytes) (proto : N) : list bytes * routed :=
+  let hostname := strip_port hh in
+  let nf := NotFound (if 2 <=? proto then 421 else 404) in
+  if existsb (beq hostname) cache then (cache, nf)
+  else match tserve_full root fallbacks hh up proto with
+       | NotFound st => (hostname :: cache, NotFound st)
+       | r => (cache, r)
+       end.
+Fixpoint serve_seq_cached (root : vtrie) (fallbacks : list bytes) (cache : list bytes)
+         (qs : list (bytes * bytes * N)) : list routed :=
+  match qs with
+  | [] => []
+  | (hh, up, proto) :: t =>
+      let '(cache', r) := serve_step_cached root fallbacks cache hh up proto in
+      r :: serve_seq_cached root fallbacks cache' t
+  end.
+
 (* one observed request of a multi-listener case *)
 Record mreq := { mq_srv : N; mq_host : bytes; mq_path : bytes; mq_proto : N; mq_simple : bool;
                  mq_trace : list N; mq_status : N; mq_prefix : bytes; mq_opath : bytes }.
